@@ -1,16 +1,20 @@
 """C16 — No input makes renamify crash.
 
 translate   translate/panic_sites.py: clippy inventory of potentially panicking sites (non-test code) -> Gen/PanicSites.lean,
-            corpus/C16/sites.json; exit-status table of main.rs -> Gen/ExitCodes.lean
+            corpus/C16/sites.json; exit-status table of main.rs -> Gen/ExitCodes.lean; per formerly panicking site whether the
+            repaired shape (`.get(..)`, `saturating_sub`, guards) is in the source -> Gen/PanicGuards.lean (the model follows it)
 tie (a)     inventory x committed classification (corpus/C16/classification.json): every site is `theorem:<name>` (the
-            theorem must exist in Props/C16.lean), `infallible`, `known-finding:<slug>`, `unreachable-from-input` or
-            `unclassified` (counted, reported); a site that is NEW or CHANGED (key absent) breaks the tie
-prove       RModel.Props.C16 (totality / exact panic conditions of the modelled cores, for all byte strings)
-tie (b)     in-process correspondence, panic / no panic per case: real is_boundary, parse_to_tokens, apply_plan on stale offsets,
-            LockFile::acquire on hostile lock contents, apply_coercion on hostile strings (under catch_unwind) vs the Lean
-            model's prediction
+            theorem must exist in Props/C16.lean), `infallible`, `unreachable-from-input`, `known-finding:<slug>` (none at
+            HEAD) or `unclassified` (counted, reported); a site that is NEW or CHANGED (key absent) breaks the tie
+prove       RModel.Props.C16: C16_full_holds (totality of every modelled core as the source has it now, for all inputs);
+            before-fix witnesses for the `...Old` shapes.  A reverted fix flips its flag and the theorem named after the site.
+regress     the recorded inputs of the nine repaired defects (corpus/C16/*.json) run first on the real binary
+tie (b)     in-process correspondence, panic / no panic per case: real is_boundary, find_matches, parse_to_tokens (default and
+            custom acronyms), apply_plan on stale offsets, LockFile::acquire on hostile lock contents, apply_coercion,
+            generate_variant_map (no empty key), can_match_style (under catch_unwind) vs the Lean model's prediction
 oracle (c)  CLI fuzz-style stream (checks/c16_cli.py): status in {0,1,2,3,130}, no `panicked at`, not killed by a signal,
-            terminates; a crash must match a listed finding by panic location (file::fn) and input class, else VIOLATION
+            terminates.  Any crash is a VIOLATION with the case as replay, unless KNOWN_FINDINGS.txt lists a finding whose
+            panic location (file::fn, classified line) and input class it matches (none is listed at HEAD).
 """
 import json
 import os
@@ -297,6 +301,11 @@ def inventory_tie(ctx):
         return []
     info = panic_sites.run.last
     sites = info["sites"]
+    ctx.cov["repaired_shapes_found"] = info.get("guards", {})
+    missing = [k for k, v in info.get("guards", {}).items() if not v]
+    if missing:
+        ctx.notes.append({"repaired shape no longer in the source (Gen.PanicGuards flag false; the theorem named after the site "
+                          "will not compile and the model predicts the old behaviour)": missing})
     ctx.count("inventory:sites", len(sites))
     ctx.cov["inventory_mode"] = info["mode"]
     if not info["mode"].startswith("clippy"):
@@ -377,6 +386,33 @@ def gen_inprocess(rng, n):
         cont = "".join(rng.choice(words) for _ in range(rng.randint(0, 2))) + old + "".join(rng.choice(words) for _ in range(rng.randint(0, 2)))
         new = rng.choice(["baz_qux", "BazQux", "q", ""])
         reqs.append(f"panic_coerce {hexs(cont)} {hexs(old)} {hexs(new)}")
+    # regression inputs of the repaired panics first, then random ones around them
+    reqs.append(f"panic_coerce {hexs('İfoo_bar')} {hexs('foo_bar')} {hexs('baz_qux')}")
+    reqs.append(f"panic_coerce {hexs('Kfoo-bar-impl')} {hexs('foo-bar')} {hexs('baz')}")
+    reqs.append(f"panic_tokens_acr {hexs('AÃb')} {hexs('AÃ')}")
+    reqs.append(f"panic_upper {hexs('ÀB')}")
+    reqs.append(f"panic_upper {hexs('É')}")
+    reqs.append(f"panic_vmap {hexs('$')} {hexs('x')}")
+    reqs.append(f"panic_vmap - {hexs('x')}")
+    reqs.append(f"panic_find {hexs('a')} {hexs('foo')}")
+    reqs.append(f"panic_edits {hexs('x')} {hexs('foo_bar')} {hexs('baz')} 2 9")
+    reqs.append(f"panic_edits {hexs('xé foo_bar y')} {hexs('foo_bar')} {hexs('baz')} 2 9")
+    reqs.append(f"panic_edits {hexs('x foo_bar y')} {hexs('foo_bar')} {hexs('baz')} 9 2")
+    reqs.append(f"panic_edits {hexs('x foo_bar')} {hexs('foo_bar')} {hexs('b')} 2 9 {hexs('foo_bar')} {hexs('b')} 2 9")
+    upp = ["À", "É", "B", "a", "Σ", "ǅ", "x", "ID", "İ", "9", "_", "Ω"]
+    terms = ["$", "__", "日本語", "İ", "foo_bar", "x", "-", " ", "é", "a.b", "FooBar", "2fa", "😀", "Straße"]
+    acr = ["AÃ", "Ã", "É", "ID", "K8S", "é", "ÿ", "2FA", "Aÿ"]
+    for _ in range(n // 4):
+        reqs.append("panic_upper " + hexs("".join(rng.choice(upp) for _ in range(rng.randint(1, 5)))))
+        reqs.append(f"panic_vmap {hexs(rng.choice(terms))} {hexs(rng.choice(terms + ['']))}")
+        text = "".join(rng.choice(["A", "Ã", "É", "b", "ÿ", "_", "ID", "é", "x", "2"]) for _ in range(rng.randint(1, 6)))
+        reqs.append("panic_tokens_acr " + hexs(text) + " " + " ".join(hexs(a) for a in rng.sample(acr, rng.randint(1, 3))))
+        content = b"".join(rng.choice(atoms) for _ in range(rng.randint(0, 6)))
+        vs = [rng.choice(["foo", "Bar", "_", "A", "é", "foo_bar", "z9"]) for _ in range(rng.randint(1, 3))]
+        reqs.append("panic_find " + hexs(content) + " " + " ".join(hexs(v) for v in vs))
+        from .c02 import gen_edit_case
+        r, kind, info = gen_edit_case(rng, malformed=True)
+        reqs.append("panic_" + r)
     return reqs
 
 
@@ -398,10 +434,12 @@ def inprocess(ctx, n):
             first = first or (r, i, m, "operation not wired")
             continue
         # the model answers `nopanic` (proved safe), `panic` (exact characterisation says the code panics today) or `any`
-        if i == "panic" and m == "nopanic":
+        if i == "panic" and m in ("nopanic", "no-empty-key"):
             first = first or (r, i, m, "the implementation panics where the model proves it cannot")
+        elif i == "empty-key" and m == "no-empty-key":
+            first = first or (r, i, m, "the variant map has the empty string as a key although the model proves it cannot")
         elif i == "nopanic" and m == "panic":
-            ctx.count(f"inproc:{op}:model-panic-impl-ok")       # the defect at this site was repaired: no alarm (2.4)
+            first = first or (r, i, m, "the model (which follows the source through Gen.PanicGuards) predicts a panic the implementation does not have")
     if first:
         r, i, m, why = first
         ctx.broke("correspondence", "panic / no panic: implementation vs Lean model", {"request": r, "impl": i, "model": m, "why": why})
@@ -475,9 +513,11 @@ def run(ctx):
     if not ok:
         ctx.broke("build", "cargo", msg)
         return
-    inprocess(ctx, 3000 if ctx.thorough else 600)
+    # the recorded inputs of the nine repaired defects run first, as regression cases: a return of any of them is
+    # reported with that concrete input
     if witnesses(ctx):
         return
+    inprocess(ctx, 3000 if ctx.thorough else 600)
     n = 5000 if ctx.thorough else 300
     if cli_stream(ctx, n, "stream"):
         return
